@@ -45,6 +45,11 @@ typedef struct {
     uint8_t payload[0];
 } Avtp_Pcm_t;
 
+#ifdef COVESA_OPEN1722_VERIF
+/* verification hook: the verifier's C front end compares enum operands as signed int, GCC (no negative
+ * enumerator) as unsigned int; under the guard the identifier type is the unsigned int GCC uses */
+#define Avtp_PcmFields_t Avtp_PcmFields_t_verif_enum
+#endif
 typedef enum {
     AVTP_PCM_FIELD_SUBTYPE,
     AVTP_PCM_FIELD_SV,
@@ -64,6 +69,10 @@ typedef enum {
     AVTP_PCM_FIELD_EVT,
     AVTP_PCM_FIELD_MAX
 } Avtp_PcmFields_t;
+#ifdef COVESA_OPEN1722_VERIF
+#undef Avtp_PcmFields_t
+typedef unsigned int Avtp_PcmFields_t;
+#endif
 
 // AAF 'format' field values
 typedef enum {
